@@ -60,8 +60,12 @@ def patch_variants(pids=None):
         for name in sorted(os.listdir(d)):
             pf = os.path.join(d, name, "patch.diff")
             if os.path.exists(pf):
+                # expect.json: {"<pid>": "error"} for a refactoring that is outside the code shapes a rule can read (DESIGN §12): the check
+                # must then end as an analysis error (exit 2) without reporting a violation
+                ef = os.path.join(d, name, "expect.json")
+                special = json.load(open(ef)) if os.path.exists(ef) else {}
                 for pid in want:
-                    out.append(dict(id=f"{pid}-refactor-{name}", pid=pid, patch=pf, file=name, old="", new="", expect="silent", rule=None))
+                    out.append(dict(id=f"{pid}-refactor-{name}", pid=pid, patch=pf, file=name, old="", new="", expect=special.get(pid, "silent"), rule=None))
     for pid in want:  # whole-tree transformations: every local variable (and every nested function) renamed
         out.append(dict(id=f"{pid}-transform-rename-locals", pid=pid, transform="rename_locals", file="rex/**", old="", new="", expect="silent", rule=None))
         out.append(dict(id=f"{pid}-transform-rename-locals-and-nested-defs", pid=pid, transform="rename_locals_defs", file="rex/**", old="", new="", expect="silent", rule=None))
@@ -119,6 +123,8 @@ def run_variant(v, repo="/repo"):
             ok = p.returncode == 1
             if ok and v.get("rule"):
                 ok = any(v["rule"] in l for l in out.splitlines())
+        elif expect == "error":
+            ok = p.returncode == 2 and not any(l.startswith("VIOLATION") for l in out.splitlines())
         else:
             ok = p.returncode == 0
         return dict(v=v["id"], status="ok" if ok else "FAIL", expect=expect, exit=p.returncode,
